@@ -257,7 +257,12 @@ impl KArr {
     }
 }
 include!("/verif/kani/gen/kx_c02_validity.rs");
-include!("/verif/kani/gen/kx_c02_any_nulls.rs");
+/// `self` of the region: the two register counts the slab allocation reads
+pub struct KPred {
+    f_regs: usize,
+    m_regs: usize,
+}
+include!("/verif/kani/gen/kx_c02_valid_bits_init.rs");
 
 const T: u8 = 1;
 const F: u8 = 0;
@@ -277,9 +282,9 @@ fn kleene_check(excluding_known: bool) {
     let (ta, tb): (bool, bool) = (kani::any(), kani::any()); // truth of each comparison when valid
     let is_or: bool = kani::any();
     let arrays = vec![KArr { valid: [va, true] }, KArr { valid: [vb, true] }];
-    let any_nulls = kx_c02_any_nulls(&arrays);
-    assert!(any_nulls == (!va || !vb));
-    let mut valid_bits: Option<Vec<bool>> = any_nulls.then(|| Vec::with_capacity(1));
+    // every statement between the column loop and the chunk loop (region): decides whether a validity bitmap exists
+    let mut valid_bits: Option<Vec<bool>> = KPred { f_regs: 1, m_regs: 1 }.kx_c02_valid_bits_init(&arrays, 1);
+    // (that a NULL in any referenced column makes the bitmap exist is its own obligation: c02_o2_bitmap_exists_for_null_column)
     kx_c02_validity(&mut valid_bits, &arrays, 0, 1);
     let row_valid = match &valid_bits {
         None => true,
@@ -299,6 +304,23 @@ fn kleene_check(excluding_known: bool) {
         kani::assume(!((a3 == N) != (b3 == N) && sql != N));
     }
     assert!(kept == (sql == T));
+    std::mem::forget((arrays, valid_bits));
+}
+/// the statements of evaluate between the column loop and the chunk loop (region): whenever any
+/// referenced column holds a NULL, a validity bitmap must exist (otherwise NULL cells are read as values)
+#[kani::proof]
+#[kani::unwind(4)]
+fn c02_o2_bitmap_exists_for_null_column() {
+    let v: [bool; 4] = [kani::any(), kani::any(), kani::any(), kani::any()];
+    let two: bool = kani::any();
+    let arrays = if two {
+        vec![KArr { valid: [v[0], v[1]] }, KArr { valid: [v[2], v[3]] }]
+    } else {
+        vec![KArr { valid: [v[0], v[1]] }]
+    };
+    let any_null = !v[0] || !v[1] || (two && (!v[2] || !v[3]));
+    let valid_bits = KPred { f_regs: 1, m_regs: 1 }.kx_c02_valid_bits_init(&arrays, 2);
+    assert!(valid_bits.is_some() || !any_null);
     std::mem::forget((arrays, valid_bits));
 }
 #[kani::proof]
